@@ -18,8 +18,11 @@ def sh(cmd, cwd, env, timeout=3600):
 src = sys.argv[1].rstrip("/")
 name = os.path.basename(src)
 meta = json.load(open(os.path.join(src, "meta.json")))
-wt = "/tmp/confirm-%s-wt" % name
-tgt = "/tmp/confirm-%s-target" % name
+slot = sys.argv[sys.argv.index("--slot") + 1] if "--slot" in sys.argv else None
+# with --slot the worktree path and cargo target dir are reused by later confirmations of that slot
+wt = "/tmp/confirm-wt-%s" % slot if slot else "/tmp/confirm-%s-wt" % name
+tgt = "/tmp/confirm-target-%s" % slot if slot else "/tmp/confirm-%s-target" % name
+subprocess.run(["git", "-C", "/repo", "worktree", "remove", "--force", wt], stdout=subprocess.DEVNULL, stderr=subprocess.DEVNULL)
 env = dict(os.environ, CARGO_TARGET_DIR=tgt, CARGO_NET_OFFLINE="true")
 ran, ok = [], False
 try:
@@ -54,7 +57,8 @@ try:
         print(out1[-600:] if rc1 else "", out2[-1200:] if rc2 else "")
 finally:
     subprocess.run(["git", "-C", "/repo", "worktree", "remove", "--force", wt], stdout=subprocess.DEVNULL, stderr=subprocess.DEVNULL)
-    shutil.rmtree(tgt, ignore_errors=True)
+    if not slot:
+        shutil.rmtree(tgt, ignore_errors=True)
     shutil.rmtree(wt, ignore_errors=True)
 if ok:
     dst = os.path.join(V, "seeded", name)
